@@ -6,10 +6,17 @@ import sys, os, json
 V = os.path.dirname(os.path.dirname(os.path.abspath(__file__)))
 sys.path.insert(0, os.path.join(V, 'harness'))
 import drift
-repo = sys.argv[1] if len(sys.argv) > 1 else '/repo'
-pins = {}
-for k in range(1, 21):
-    pid = 'C%02d' % k
+# usage: pin_sources.py [--repo DIR] [CXX ...]   (no ids = all twenty)
+args = sys.argv[1:]
+repo = '/repo'
+if args[:1] == ['--repo']:
+    repo = args[1]; args = args[2:]
+try:
+    pins = json.load(open(drift.PINS))
+except Exception:
+    pins = {}
+ids = [a.upper() for a in args] or ['C%02d' % k for k in range(1, 21)]
+for pid in ids:
     pins[pid] = drift.compute(repo, pid)
 json.dump(pins, open(drift.PINS, 'w'), indent=0, sort_keys=True)
 print('pinned', sum(len(v) for p in pins.values() for v in p.values()), 'function hashes')
